@@ -337,4 +337,38 @@ theorem promptRow_inlineRight (o : ROpts) (input : Str) (found total nsel : Nat)
     · simp only [hi, if_false]
       rw [List.getElem?_eq_none (by simp; omega)]
 
+/-- With --info=right the counter sits at the right end of the info row (one margin cell after it),
+    the separator — or blanks — filling the row before it. -/
+theorem infoRow_right (o : ROpts) (found total nsel : Nat) (hinfo : o.info = .right)
+    (hroom : (infoText o found total nsel).length + 2 ≤ o.W) :
+    ((infoRow o found total nsel).drop (o.W - (infoText o found total nsel).length - 1)).take
+        (infoText o found total nsel).length = infoText o found total nsel ∧
+    (infoRow o found total nsel).length = o.W := by
+  unfold infoRow
+  simp only [hinfo]
+  generalize infoText o found total nsel = txt at *
+  have htm : trimMessage txt (o.W - 1) = txt := by unfold trimMessage; rw [if_pos (by omega)]
+  rw [htm]
+  refine ⟨?_, rowOf_length _ _⟩
+  have hfl : ∀ (pre : Str), pre.length = o.W - txt.length - 2 →
+      ((rowOf o.W (pre ++ [32] ++ txt)).drop (o.W - txt.length - 1)).take txt.length = txt := by
+    intro pre hpre
+    apply List.ext_getElem?
+    intro i
+    rw [List.getElem?_take]
+    by_cases hi : i < txt.length
+    · simp only [hi, if_true]
+      rw [List.getElem?_drop, rowOf_getElem?, if_pos (by omega), if_pos (by simp; omega)]
+      rw [List.getElem?_append_right (by simp; omega)]
+      congr 1
+      simp
+      omega
+    · simp only [hi, if_false]
+      rw [List.getElem?_eq_none (by omega)]
+  by_cases hs : o.separator = true
+  · simp only [hs, if_true]
+    exact hfl _ (by simp)
+  · simp only [hs, Bool.false_eq_true, if_false]
+    exact hfl _ (by simp [blanks])
+
 end Fzf.Render
